@@ -1,7 +1,7 @@
 """C04: REQ/REP: replies reach only the matching outstanding request.
 Specs: proto/Req.tla, proto/Rep.tla (macro-step, virtual time).  Binding: TLC -simulate behaviours replayed through drv_proto;
 the driver is the peer: it sees request ids on the wire and injects replies of every class."""
-import os
+import os, random
 from vlib import *
 from protolib import *
 
@@ -15,7 +15,11 @@ def rep_part(v, thorough):
     r = tlc("proto/Rep.tla", "Rep_mc.cfg", workers=12, timeout=2400)
     tlc_require_ok(r, "Rep")
     v.add_tlc("proto/Rep.tla:mc", r)
-    replay_sim(v, "rep", False, "proto/Rep.tla", "Rep_sim.cfg", 20000 if thorough else 2500, 35, auto=True, setup=REP_SETUP)
+    replay_sim(v, "rep", False, "proto/Rep.tla", "Rep_sim.cfg", 20000 if thorough else 1500, 35, auto=True, setup=REP_SETUP)
+    # every class of transition of the complete one-connection graph (incl. cancel, context close and socket close with a
+    # queued reply and a pending receive)
+    replay_proto(v, "rep", False, "proto/Rep.tla", "Rep_gen.cfg", random.Random(v.seed), nrandom=0, auto=True, setup=REP_SETUP,
+                 by_class=True, timeout=3000)
 
 
 def run(v, tier, rng):
